@@ -324,7 +324,7 @@ def build_expr(pg, toks, pos, amap, P):
 
 
 FUNC_CTX = ["f_direct", "f_join", "f_partial", "f_loop"]
-TEMPL_CTX = ["t_direct", "t_constrain", "t_local", "t_loop", "t_join", "t_array_if", "t_array_seq"]
+TEMPL_CTX = ["t_direct", "t_constrain", "t_local", "t_loop", "t_join", "t_array_if", "t_array_seq", "t_operand_join"]
 
 
 def expr_program(toks, ctx, P):
@@ -416,6 +416,15 @@ def expr_program(toks, ctx, P):
             kids.append(simple("nop", "o1", toks, "o1 <-- "))
         elif ctx == "t_constrain":
             kids.append(simple("nop", "o1", toks, "o1 <== "))
+        elif ctx == "t_operand_join":
+            # the local operand `v` carries a merged degree range (linear on one path, constant on the other)
+            c = simple("if", "", binx("greater", atom_expr(var("n")), lit_expr(0)), "if (", ind=1)
+            lines[-1] = (1, lines[-1][1][:-2] + ") {", lines[-1][2], lines[-1][3], lines[-1][4])
+            b = simple("set", "v", lit_expr(2), "v = ", ind=2)
+            lines.append((1, "}", [], 0, 0))
+            pg.stmts[c - 1]["t"] = pg.stmt({"k": "blk", "kids": [b]})
+            kids.append(c)
+            kids.append(simple("nop", "o1", toks, "o1 <-- "))
         elif ctx == "t_local":
             kids.append(simple("set", "w", toks, "var w = "))
             kids.append(simple("nop", "o1", atom_expr(var("w")), "o1 <-- "))
@@ -662,9 +671,12 @@ def run_check(prop, tier, want, budgets=False):
                 text, prog, ranges, span = instantiate(toks, P, seed * 1000003 + k * 17 + j, template)
                 progs.append((text, prog, ranges, span))
         # ---- second family: every expression of ExprGen.tla in the data-flow contexts
-        ctxs = {"C06": FUNC_CTX, "C07": TEMPL_CTX, "C20": ["f_join", "f_loop", "t_loop", "t_join", "t_array_if"]}[prop]
-        for ec in expr_cases:
-            for ctx in ctxs:
+        ctxs = {"C06": FUNC_CTX, "C07": TEMPL_CTX, "C20": ["f_join", "f_loop", "t_loop", "t_join", "t_array_if", "t_operand_join"]}[prop]
+        ndepth1 = len(expr_cases) - len(deep[:ndeep])
+        for j, ec in enumerate(expr_cases):
+            # depth-1 expressions go through every context; in the quick tier each sampled deeper one through three of them (rotating)
+            use = ctxs if (j < ndepth1 or tier != "quick" or len(ctxs) <= 3) else [ctxs[(j + d) % len(ctxs)] for d in (0, 1, 3)]
+            for ctx in use:
                 progs.append(expr_program(ec, ctx, P))
         jobs = [{"id": i, "src": t, "prime": str(P), "passes": True} for i, (t, _, _, _) in enumerate(progs)]
         base_docs = None
@@ -777,7 +789,7 @@ def run_check(prop, tier, want, budgets=False):
     return v.finish(cov, assumptions=[
         "the tool and the reference executor work over the same small prime field F_P (hook H3); the three real primes are covered operator by operator by C16",
         "conditions of the fragment are signal-free; executions with a signal-dependent condition are abandoned, not judged",
-        "function calls, arrays and component ports are outside the executor's fragment (claims about them are not judged)"])
+        "function calls, signal arrays and component ports are outside the executor's fragment (claims about them are not judged); local arrays are in, with indices that are constant over the signal valuations"])
 
 
 # ------------------------------------------------------------------ C09: effects / self-composition
